@@ -172,6 +172,36 @@ class Slice:
         s.arr, s.start, s.end, s.stride = arr, start, end, stride
 
 
+def valid_in(ex, st, f):
+    so = ex._solver()
+    so.add(*st.pc)
+    so.add(z3.Not(f))
+    ex.nq += 1
+    return so.check() == z3.unsat
+
+
+def free_vars(e, _cache={}):
+    """names of the uninterpreted constants of a z3 term"""
+    if not z3.is_expr(e):
+        return set()
+    k = e.get_id()
+    if k in _cache:
+        return _cache[k]
+    out, todo, seen = set(), [e], set()
+    while todo:
+        x = todo.pop()
+        i = x.get_id()
+        if i in seen:
+            continue
+        seen.add(i)
+        if z3.is_const(x) and x.decl().kind() == z3.Z3_OP_UNINTERPRETED:
+            out.add(str(x))
+        else:
+            todo.extend(x.children())
+    _cache[k] = out
+    return out
+
+
 class ElemPtr:
     def __init__(s, arr, idx, cast=None):
         s.arr, s.idx, s.cast = arr, idx, cast
@@ -316,6 +346,7 @@ class Exec:
         s.unwind_edges = 0
         s.consts = {}
         s.mir_text = None
+        s.order = bool(os.environ.get('MIRSYM_ORDER'))      # C08: caller code is applied once per index, in index order
         s.inductive = {'': False, '1': True, 'strict': 'strict'}.get(os.environ.get('MIRSYM_INDUCTIVE', ''), False)   # False | True (fall back to unrolling) | 'strict'
         s.inductive_used = s.inductive_failed = 0
         s.solver_timeout_ms = int(os.environ.get('MIRSYM_SOLVER_TIMEOUT_MS', '60000'))
@@ -504,6 +535,8 @@ class Exec:
         st.status[arr] = z3.If(i == s.J, LIVE, st.status[arr])
         st.events.append('write %s[%s]' % (arr.name, z3.simplify(i)))
         if isinstance(val, Elem):
+            if s.order and val.arr is s.V and arr.name.startswith(('Out', 'Heap')):
+                s.require(st, val.idx == i + 1, 'slot i does not receive the result of call #i (order / once-per-index)', where)
             s.require(st, z3.Implies(val.idx == s.J, s.stat(st, val.arr) == HELD), 'stored a value that is not owned', where)
             st.status[val.arr] = z3.If(val.idx == s.J, STORED, st.status[val.arr])
 
@@ -692,6 +725,22 @@ class Exec:
                 return s.div(st, a, b, rem=(op == 'Rem'))
             if z3.is_bool(a) and op in ('Eq', 'Ne'):
                 return (a == b) if op == 'Eq' else (a != b)
+            if isinstance(a, (ElemPtr, ArrRef)) or isinstance(b, (ElemPtr, ArrRef)):
+                # pointers compare by ADDRESS: base + index * size_of::<T>() - for a zero-sized element type every element has the same address
+                pa = ElemPtr(a.arr, bv(0)) if isinstance(a, ArrRef) else a
+                pb = ElemPtr(b.arr, bv(0)) if isinstance(b, ArrRef) else b
+                if not (isinstance(pa, ElemPtr) and isinstance(pb, ElemPtr) and pa.arr is pb.arr and not pa.cast and not pb.cast):
+                    raise NotImplementedError('comparison of pointers into different objects / of different element types')
+                zst = s.S == 0
+                if op in ('Eq', 'Ne'):
+                    same = z3.Or(pa.idx == pb.idx, zst)
+                    return same if op == 'Eq' else z3.Not(same)
+                cmpf = {'Lt': ULT, 'Gt': UGT, 'Le': ULE, 'Ge': UGE}.get(op)
+                if cmpf is None:
+                    raise NotImplementedError('pointer operation ' + op)
+                return z3.If(zst, z3.BoolVal(op in ('Le', 'Ge')), cmpf(pa.idx, pb.idx))
+            if not all(z3.is_expr(x) for x in (a, b)):
+                raise NotImplementedError('binary operation %s on %s / %s' % (op, type(a).__name__, type(b).__name__))
             if is_int() and op in ('BitAnd', 'BitOr', 'Shl'):
                 if op == 'BitAnd' and z3.is_int_value(b) and (b.as_long() + 1) & b.as_long() == 0:
                     return a % (b.as_long() + 1)
@@ -947,8 +996,23 @@ class Exec:
         # opaque caller closure
         return s.extern_call(st, args, where, 'f')
 
+    def order_check(s, st, args, where, label):
+        """`order` mode: the k-th call of caller code (k = 0, 1, ...) is the one for index k: it receives element k of every input / the
+        index k itself"""
+        if not s.order:
+            return
+        k = bv(0) if st.vid is None else st.vid
+        for a in (args.values() if isinstance(args, dict) else args):
+            if isinstance(a, (Elem, ElemPtr)) and a.arr is not s.V and not getattr(a, 'cast', None):
+                s.require(st, a.idx == k, 'call #k of the caller\'s function does not receive element k (order / once-per-index)', where)
+            elif z3.is_expr(a) and not z3.is_bool(a):
+                s.require(st, a == k, 'call #k of the caller\'s function does not receive index k', where)
+            elif isinstance(a, dict) and '__closure__' not in a:
+                s.order_check(st, a, where, label)
+
     def extern_call(s, st, args, where, label, returns_value=True):
         """caller-supplied code: consumes its by-value arguments, may return a fresh value or panic"""
+        s.order_check(st, args, where, label)
         for a in args:
             s.ev_extern(st, a)
         st.calls += 1
@@ -1076,6 +1140,35 @@ class Exec:
             if isinstance(inv.heap.get(cell), (dict, Enum)):
                 walk(st0.heap[cell], inv.heap[cell])
         inv.pc.append(ULT(K, bv(2 ** 63)))
+        # auxiliary candidate: a pointer that advances by one element per iteration stays inside [start, one-past-the-end] of its object
+        # (needed for loops guarded by pointer inequality `p != end`; checked inductively in _check_step like everything else)
+        aux = []
+        for (cell, path), d in deltas.items():
+            if path and path[-1] == 'idx' and d.as_long() == 1:
+                v_ = st0.heap[cell]
+                try:
+                    for k_ in path[:-1]:
+                        v_ = v_.fields[k_] if isinstance(v_, Enum) else v_[k_]
+                except (KeyError, TypeError, AttributeError):
+                    continue
+                if isinstance(v_, ElemPtr) and valid_in(s, st0, ULE(v_.idx, v_.arr.len)):
+                    aux.append((v_.idx, v_.arr.len))
+                    inv.pc.append(ULE(v_.idx + K, v_.arr.len))
+        # facts the learning iteration established about symbols that already existed on entry (e.g. "the element size is not zero", taken
+        # from a pointer-inequality loop guard) are facts about the whole execution: they hold whenever at least one iteration has run
+        entry_vars = set()
+        for f_ in st0.pc:
+            entry_vars |= free_vars(f_)
+        for cell in st0.heap:
+            for (_, a_, _) in s._leaf_pairs(st0.heap[cell], st0.heap[cell]):
+                entry_vars |= free_vars(a_)
+        for t_ in st0.status.values():
+            entry_vars |= free_vars(t_)
+        entry_vars |= {str(x) for x in (s.N, s.J, s.S, s.SZ)} | {str(x) for x in s.needs_drop.values()} | {str(x) for x in s.consts.values()}
+        if len(st1.pc) >= len(st0.pc) and all(a_ is b_ or a_.eq(b_) for a_, b_ in zip(st0.pc, st1.pc)):
+            for f_ in st1.pc[len(st0.pc):]:
+                if free_vars(f_) <= entry_vars:
+                    inv.pc.append(z3.Implies(UGE(K, bv(1)), f_))
         # fresh-value counter
         v0 = bv(0) if st0.vid is None else st0.vid
         v1 = bv(0) if st1.vid is None else st1.vid
@@ -1151,7 +1244,7 @@ class Exec:
         # vacuity guard: the hypothesis must be satisfiable for a non-zero number of iterations
         if not s.feasible(inv, UGE(K, bv(1))):
             return None
-        tmpl = {'K': K, 'deltas': deltas, 'v0': v0, 'dv': dv, 'ledger': ledger_t, 'st0': st0, 'in_range': in_range}
+        tmpl = {'K': K, 'deltas': deltas, 'v0': v0, 'dv': dv, 'ledger': ledger_t, 'st0': st0, 'in_range': in_range, 'aux': aux}
         return inv, tmpl
 
     def _check_step(s, tmpl, sb, where):
@@ -1166,6 +1259,8 @@ class Exec:
                         s.require(sb, b == target, 'loop invariant not inductive (a counter / value does not advance as hypothesised)', where)
         except ValueError as e:
             raise Inconclusive('loop invariant template: heap shape changes inside the loop (%s)' % e)
+        for (i0, ln) in tmpl.get('aux', []):
+            s.require(sb, ULE(i0 + K + 1, ln), 'loop invariant not inductive (an advancing pointer leaves its object)', where)
         s.require(sb, (bv(0) if sb.vid is None else sb.vid) == v0 + (K + 1) * dv, 'loop invariant not inductive (number of values produced per iteration)', where)
         for arr in sb.status:
             t0 = st0.status.get(arr, UNINIT)
@@ -1466,6 +1561,7 @@ class Exec:
             s.ev_write(st, p.arr, p.idx, v, where)
             return R(UNIT)
         if re.match(r'<T as Clone>::clone', c):
+            s.order_check(st, [args[0]] if isinstance(args[0], (Elem, ElemPtr)) else [], where, 'clone')
             st.calls += 1
             k = st.calls
             st.events.append('T::clone #%d' % k)
@@ -1522,6 +1618,29 @@ class Exec:
                 if isinstance(v, BoxVal):
                     return R(v.ptr)
             return R(a)
+        if re.search(r'<impl \[.*\]>::as_(mut_)?ptr_range$', c):
+            a = args[0]
+            if isinstance(a, ArrRef):
+                a = Slice(a.arr, bv(0), a.arr.len)
+            if a.stride is not None:
+                raise NotImplementedError('as_ptr_range of a slice of chunks')
+            return R({0: ElemPtr(a.arr, a.start), 1: ElemPtr(a.arr, a.end)})
+        mo = re.search(r'::(offset_from|offset_from_unsigned|sub_ptr|byte_offset_from)$', c)
+        if mo and isinstance(args[0], ElemPtr) and isinstance(args[1], ElemPtr):
+            pa, pb = args
+            if pa.arr is not pb.arr or pa.cast or pb.cast:
+                raise NotImplementedError('offset_from between different objects')
+            if mo.group(1) == 'byte_offset_from':
+                return R((pa.idx - pb.idx) * s.S)
+            outs = []
+            if s.feasible(st, s.S == 0):      # core: `assert!(0 < pointee_size)` - panics for zero-sized element types
+                s2 = st.clone(); s2.pc.append(s.S == 0); s2.events.append('%s on a zero-sized element type: panic' % mo.group(1)); outs.append((s2, 'unwind', None))
+            if s.feasible(st, s.S != 0):
+                s1 = st.clone(); s1.pc.append(s.S != 0)
+                if mo.group(1) != 'offset_from':
+                    s.require(s1, ULE(pb.idx, pa.idx), mo.group(1) + ': first pointer is below the second (undefined behaviour)', where)
+                outs.append((s1, 'ret', pa.idx - pb.idx))
+            return outs
         if re.search(r'::(add|offset)$', c) and ('*const' in c or '*mut' in c or 'ptr::' in c):
             p, k = args
             return R(ElemPtr(p.arr, p.idx + k, cast=p.cast))
@@ -1602,6 +1721,13 @@ class Exec:
             if isinstance(sl, ArrRef):
                 sl = Slice(sl.arr, bv(0), sl.arr.len)
             return R({'kind': 'slice', 'arr': sl.arr, 'pos': sl.start, 'end': sl.end})
+        if re.match(r'^(?:core::slice::)?Iter(Mut)?::<.*>::(as_slice|into_slice|as_mut_slice)$', c):
+            it = args[0]
+            if isinstance(it, Ref):
+                it = st.get(it.cell, it.path)
+            if not (isinstance(it, dict) and it.get('kind') in ('slice', 'rslice')):
+                raise NotImplementedError('as_slice of a non-slice iterator')
+            return R(Slice(it['arr'], it['pos'], it['end']))
         if re.search(r' as Iterator>::map::<', c):
             return R({'kind': 'map', 'inner': args[0], 'clo': args[1]})
         if re.search(r' as Iterator>::zip::<', c):
@@ -1767,7 +1893,7 @@ class Exec:
             st.pc.append(ULE(q['yielded'], q['count']))
             outs = []
             s2 = st.clone(); s2.events.append('seq.next_element() panicked'); s.unwind_edges += 1; outs.append((s2, 'unwind', None))
-            s3 = st.clone(); s3.events.append('seq.next_element() -> Err'); outs.append((s3, 'ret', Enum('Err', {0: Opaque('deserializer error')})))
+            s3 = st.clone(); s3.events.append('seq.next_element() -> Err'); s3.get(r.cell, r.path)['failed'] = True; outs.append((s3, 'ret', Enum('Err', {0: Opaque('deserializer error')})))
             if s.feasible(st, q['yielded'] == q['count']):
                 s0 = st.clone(); s0.pc.append(q['yielded'] == q['count']); s0.events.append('seq.next_element() -> Ok(None)')
                 outs.append((s0, 'ret', Enum('Ok', {0: Enum('None', {})})))
@@ -1821,6 +1947,8 @@ class Exec:
         # ---- panics
         if re.search(r'(panic_fmt|panicking::panic|panic_display|panic_nounwind|from_iter_length_fail|assert_failed)', c):
             st.events.append('panic: ' + c[:60])
+            st.notes = dict(st.notes)
+            st.notes['own_panic'] = c[:60]      # a panic raised by the crate's own code (not by caller-supplied code)
             return [(st, 'unwind', None)]
         if re.search(r'unreachable_unchecked', c):
             s.require(st, z3.BoolVal(False), 'unreachable_unchecked() reached (undefined behaviour)', where)
